@@ -528,6 +528,28 @@ class C19(Check):
                 if bad(abs(nrm - 1.0), TOL_PLSR):
                     ctx.violation(f"CP_PLSR.fit/y-loading-not-unit-norm/{ycls}",
                                   f"{case}: ||Y_factors[1][:, {c}]|| = {nrm!r}; column={lst(f[:, c])}")
+            # history: fit_transform, the caller rescales the scores it was handed IN PLACE (they are the caller's arrays), then asks the
+            # estimator to transform its training data again: the estimator must not have been changed through the returned arrays
+            try:
+                from tensorly.regression import CP_PLSR
+
+                m2 = CP_PLSR(n_components=nc, tol=m.tol, n_iter_max=m.n_iter_max, random_state=m.random_state, verbose=False)
+                got = m2.fit_transform(X.copy(), Y.copy())
+                outs = list(got) if isinstance(got, (tuple, list)) else [got]
+                for a in outs:
+                    if isinstance(a, np.ndarray) and a.flags.writeable:
+                        a *= 0.5
+                        a += 7.0
+                xs3, ys3 = m2.transform(X.copy(), Y.copy())
+                ctx.count("fit_transform-then-caller-scribbles-histories")
+                cmp(f"CP_PLSR.fit_transform/returned-scores-alias-estimator-state/x/{xcls}",
+                    "after the caller modified the arrays returned by fit_transform in place: transform(X_train, Y_train)[0] vs X_factors[0]",
+                    xs3, np.asarray(m2.X_factors[0], dtype=float))
+                cmp(f"CP_PLSR.fit_transform/returned-scores-alias-estimator-state/y/{ycls}",
+                    "after the caller modified the arrays returned by fit_transform in place: transform(X_train, Y_train)[1] vs Y_factors[0]",
+                    ys3, np.asarray(m2.Y_factors[0], dtype=float))
+            except Exception as e:
+                ctx.count(f"guarded_out:fit_transform-history-raises:{type(e).__name__}")
             ctx.nontriv()
             ctx.outcome("plsr:base:data-determined" if b["guard"] >= GUARD_REL else "plsr:base:rank-exhausted")
             if len(ctx.samples) < 2:
